@@ -61,7 +61,9 @@ Ltac go_close :=
   try reflexivity; try solve [go_booleq]; try solve [go_data_eq]; try congruence; try (f_equal; lia); try (exfalso; lia);
   try (repeat f_equal; lia); try (rewrite <- ?app_assoc; reflexivity);
   try (exfalso; unfold llen, len in *; lia).
-Ltac go_cases := repeat (cbn [bind]; rewrite ?ge_beq_nil; try go_case1); go_close.
+(* bounded: a diverging case analysis (after a source change) must fail, not hang *)
+Ltac go_cases :=
+  timeout 60 (repeat (cbn [bind]; rewrite ?ge_beq_nil; try go_case1)); go_close.
 
 (* destruct the first partial operation the left-hand side is waiting for *)
 Ltac go_head r :=
